@@ -18,6 +18,16 @@ N4  Copy propagation of a local bound once to an *access path* (`ch = state.line
     statement that stores to something the path reads or makes a call (calls may change the state objects).
 
 N5  `x = x + k` is `x += k` for a numeric constant k.
+N9  Inside `if x == PATH:` (x a plain local, PATH an access path such as `state.pos`) the local *is* the path: its uses in the
+    branch are replaced by the path up to the first statement that can change what the path reads (a store to it, a call other
+    than a NamedTuple constructor / pure builtin; the replaced statement's own right-hand side is evaluated before its store).
+    A `yield` does not count: the objects the paths of these modules read (scanner state, tokenizer) are never handed out.
+    N5 also applies to attribute targets (`s.pos = s.pos + 1` -> `s.pos += 1`).
+
+N10 `for v in range(A, B): BODY; A = v + 1` with A, B access paths, where BODY has no `continue`, writes neither A's nor B's
+    reads nor v, makes no impure call, and v is not used outside the loop, is `while A < B: BODY[v := A]; A += 1`: v equals A at
+    the top of every iteration, and the range ends exactly when A reaches B.
+
 N6  A local bound once and used once, in the statement right after its binding and before anything else with an effect is
     evaluated there, is inlined (single-use temporaries).
 
@@ -294,13 +304,140 @@ def _inline_temporaries(fn) -> None:
                 break
 
 
+def _simple_target(e) -> bool:
+    while isinstance(e, ast.Attribute):
+        e = e.value
+    return isinstance(e, ast.Name)
+
+
+def _guarded_equalities(fn, facts: dict) -> None:
+    """N9."""
+    tuples = set((facts or {}).get("tuples", ()))
+    params = {a.arg for a in fn.args.posonlyargs + fn.args.args + fn.args.kwonlyargs}
+
+    def disturbing(st, reads: set[str]) -> bool:
+        roots = {r.split(".")[0] for r in reads}
+        for n in ast.walk(st):
+            if isinstance(n, ast.Call):
+                f = n.func
+                if not (isinstance(f, ast.Name) and (f.id in PURE_CALLS or f.id in tuples)):
+                    return True
+            if isinstance(n, ast.Await):
+                return True
+            if isinstance(n, (ast.Name, ast.Attribute, ast.Subscript)) and isinstance(getattr(n, "ctx", None), (ast.Store, ast.Del)):
+                base = n
+                while isinstance(base, (ast.Attribute, ast.Subscript)):
+                    base = base.value
+                if isinstance(base, ast.Name) and base.id in roots:
+                    return True
+        return False
+
+    for node in list(_own(fn)):
+        if not (isinstance(node, ast.If) and isinstance(node.test, ast.Compare) and len(node.test.ops) == 1 and isinstance(node.test.ops[0], ast.Eq)):
+            continue
+        a, b = node.test.left, node.test.comparators[0]
+        if isinstance(a, ast.Name) and _access_path(b):
+            name, path = a.id, b
+        elif isinstance(b, ast.Name) and _access_path(a):
+            name, path = b.id, a
+        else:
+            continue
+        if name in params or name in _reads(path):
+            continue
+        reads = _reads(path)
+        for st in node.body:
+            if isinstance(st, (ast.If, ast.For, ast.While, ast.Try, ast.With, ast.Match, ast.FunctionDef)):
+                break
+            calls_impure = any(isinstance(n, ast.Call) and not (isinstance(n.func, ast.Name) and (n.func.id in PURE_CALLS or n.func.id in tuples))
+                               for n in ast.walk(st))
+            if calls_impure:
+                break
+            stores_name = any(isinstance(n, ast.Name) and n.id == name and isinstance(n.ctx, (ast.Store, ast.Del)) for n in ast.walk(st))
+            if stores_name:
+                break
+
+            class R(ast.NodeTransformer):
+                def visit_Name(self, n):
+                    if n.id == name and isinstance(n.ctx, ast.Load):
+                        return ast.copy_location(copy.deepcopy(path), n)
+                    return n
+            # an augmented store to the path itself reads it first: fine; a plain store evaluates the value first: fine
+            if isinstance(st, ast.Assign):
+                st.value = R().visit(st.value)
+            elif isinstance(st, ast.AugAssign):
+                st.value = R().visit(st.value)
+            elif isinstance(st, (ast.Expr, ast.Return)):
+                if st.value is not None:
+                    st.value = R().visit(st.value)
+            else:
+                break
+            if disturbing(st, reads):
+                break
+
+
+def _range_loops(fn, facts: dict) -> None:
+    """N10."""
+    tuples = set((facts or {}).get("tuples", ()))
+
+    def rewrite(seq: list[ast.stmt]) -> None:
+        for i, st in enumerate(seq):
+            for fld in ("body", "orelse", "finalbody"):
+                blk = getattr(st, fld, None)
+                if isinstance(blk, list) and blk and isinstance(blk[0], ast.stmt):
+                    rewrite(blk)
+            if not (isinstance(st, ast.For) and isinstance(st.target, ast.Name) and not st.orelse and isinstance(st.iter, ast.Call)
+                    and isinstance(st.iter.func, ast.Name) and st.iter.func.id == "range" and len(st.iter.args) == 2 and not st.iter.keywords):
+                continue
+            v = st.target.id
+            a, b = st.iter.args
+            if not (_access_path(a) and _access_path(b)) or len(st.body) < 2:
+                continue
+            last = st.body[-1]
+            if not (isinstance(last, ast.Assign) and len(last.targets) == 1 and ast.unparse(last.targets[0]) == ast.unparse(a)
+                    and ast.unparse(last.value) == f"{v} + 1"):
+                continue
+            body = st.body[:-1]
+            reads = _reads(a) | _reads(b)
+            roots = {r.split(".")[0] for r in reads}
+            bad = False
+            for n in [x for s2 in body for x in ast.walk(s2)]:
+                if isinstance(n, (ast.Continue, ast.Return, ast.Yield, ast.YieldFrom, ast.Await, ast.FunctionDef, ast.Lambda)):
+                    bad = True
+                if isinstance(n, ast.Call) and not (isinstance(n.func, ast.Name) and (n.func.id in PURE_CALLS or n.func.id in tuples)):
+                    bad = True
+                if isinstance(n, (ast.Name, ast.Attribute, ast.Subscript)) and isinstance(getattr(n, "ctx", None), (ast.Store, ast.Del)):
+                    base = n
+                    while isinstance(base, (ast.Attribute, ast.Subscript)):
+                        base = base.value
+                    if isinstance(base, ast.Name) and (base.id in roots or base.id == v):
+                        bad = True
+            inside = {id(x) for x in ast.walk(st)}
+            if any(isinstance(x, ast.Name) and x.id == v and id(x) not in inside for x in ast.walk(fn)):
+                bad = True
+            if bad:
+                continue
+
+            class R(ast.NodeTransformer):
+                def visit_Name(self, n):
+                    if n.id == v and isinstance(n.ctx, ast.Load):
+                        return ast.copy_location(copy.deepcopy(a), n)
+                    return n
+            new_body = [R().visit(s2) for s2 in body]
+            target = copy.deepcopy(last.targets[0])
+            new_body.append(ast.copy_location(ast.AugAssign(target=target, op=ast.Add(), value=ast.Constant(value=1)), last))
+            seq[i] = ast.copy_location(ast.While(test=ast.Compare(left=copy.deepcopy(a), ops=[ast.Lt()], comparators=[copy.deepcopy(b)]),
+                                                 body=new_body, orelse=[]), st)
+    rewrite(fn.body)
+
+
 class _AugAssign(ast.NodeTransformer):
     """N5: `x = x + k` / `x = x - k` with a numeric constant k is `x += k` / `x -= k` (same for every immutable x)."""
 
     def visit_Assign(self, node: ast.Assign):
-        if len(node.targets) == 1 and isinstance(node.targets[0], ast.Name) and isinstance(node.value, ast.BinOp) and \
-                isinstance(node.value.op, (ast.Add, ast.Sub)) and isinstance(node.value.left, ast.Name) and \
-                node.value.left.id == node.targets[0].id and isinstance(node.value.right, ast.Constant) and \
+        if len(node.targets) == 1 and isinstance(node.targets[0], (ast.Name, ast.Attribute)) and isinstance(node.value, ast.BinOp) and \
+                isinstance(node.value.op, (ast.Add, ast.Sub)) and isinstance(node.value.left, (ast.Name, ast.Attribute)) and \
+                _simple_target(node.value.left) and ast.unparse(node.value.left) == ast.unparse(node.targets[0]) \
+                and isinstance(node.value.right, ast.Constant) and \
                 isinstance(node.value.right.value, (int, float)) and not isinstance(node.value.right.value, bool):
             return ast.copy_location(ast.AugAssign(target=node.targets[0], op=node.value.op, value=node.value.right), node)
         return node
@@ -317,6 +454,12 @@ def normalise(mod: ast.Module, newtypes: set[str], fields: dict) -> ast.Module:
         for n in ast.walk(mod):
             if isinstance(n, (ast.FunctionDef, ast.AsyncFunctionDef)):
                 _copy_propagate(n, fields)
+    for n in ast.walk(mod):
+        if isinstance(n, (ast.FunctionDef, ast.AsyncFunctionDef)):
+            _range_loops(n, fields)
+    for n in ast.walk(mod):
+        if isinstance(n, (ast.FunctionDef, ast.AsyncFunctionDef)):
+            _guarded_equalities(n, fields)
     for n in ast.walk(mod):
         if isinstance(n, (ast.FunctionDef, ast.AsyncFunctionDef)):
             _propagate_paths(n)
